@@ -297,6 +297,7 @@ static RunResult run_child(Engine& eng, const Plan& plan, const Opts& opts, bool
 		entropy_attach_log(&ctx.log);
 		try
 		{
+			early_check(ctx);
 			eng.execute(plan, ctx);
 		}
 		catch(ViolationEx& v)
@@ -579,6 +580,7 @@ int sim_main(int argc, char** argv, std::vector<Engine*> engines)
 	setvbuf(stdout, nullptr, _IOLBF, 0);
 
 	uint64_t stream = prop_stream(seed, opts.prop);
+	early_prepare();
 
 	if(print_plan >= 0)
 	{
@@ -615,7 +617,7 @@ int sim_main(int argc, char** argv, std::vector<Engine*> engines)
 	std::vector<double> metric_max(32, 0.0);
 	std::vector<uint8_t> states(MAX_STATES / 8, 0);
 	std::map<std::string, int> shrunk_per_class;
-	uint64_t total_ops = 0, total_events = 0, det_reruns = 0, det_mismatch = 0, nviol = 0, executed = 0, ambient_errno = 0;
+	uint64_t total_ops = 0, total_events = 0, det_reruns = 0, det_mismatch = 0, nviol = 0, executed = 0, ambient_errno = 0, ambient_fpflags = 0, early_calls = 0;
 	int samples_emitted = 0;
 	Shared snap;
 	for(long i = first + worker; i < first + nruns; i += nworkers)
@@ -627,6 +629,8 @@ int sim_main(int argc, char** argv, std::vector<Engine*> engines)
 		total_ops += r.nops;
 		total_events += r.nevents;
 		ambient_errno += snap.ambient_errno;
+		ambient_fpflags += snap.ambient_fpflags;
+		early_calls += snap.early_calls;
 		for(int k = 0; k < MAX_PROBES; k++)
 		{
 			probe_sum[k] += snap.probes[k];
@@ -721,7 +725,7 @@ int sim_main(int argc, char** argv, std::vector<Engine*> engines)
 			sj += (first_state ? "" : ",") + std::to_string(id);
 			first_state = false;
 		}
-	printf("{\"t\":\"sum\",\"worker\":%ld,\"executed\":%llu,\"ops\":%llu,\"events\":%llu,\"violations\":%llu,\"det_reruns\":%llu,\"det_mismatches\":%llu,\"ambient_errno\":%llu,\"probes\":{%s},\"metrics\":{%s},\"states\":[%s]}\n", worker, (unsigned long long) executed, (unsigned long long) total_ops, (unsigned long long) total_events, (unsigned long long) nviol, (unsigned long long) det_reruns, (unsigned long long) det_mismatch, (unsigned long long) ambient_errno, pj.c_str(), mj.c_str(), sj.c_str());
+	printf("{\"t\":\"sum\",\"worker\":%ld,\"executed\":%llu,\"ops\":%llu,\"events\":%llu,\"violations\":%llu,\"det_reruns\":%llu,\"det_mismatches\":%llu,\"ambient_errno\":%llu,\"ambient_fpflags\":%llu,\"early_calls\":%llu,\"probes\":{%s},\"metrics\":{%s},\"states\":[%s]}\n", worker, (unsigned long long) executed, (unsigned long long) total_ops, (unsigned long long) total_events, (unsigned long long) nviol, (unsigned long long) det_reruns, (unsigned long long) det_mismatch, (unsigned long long) ambient_errno, (unsigned long long) ambient_fpflags, (unsigned long long) early_calls, pj.c_str(), mj.c_str(), sj.c_str());
 	return det_mismatch ? 2 : 0;
 }
 
